@@ -201,6 +201,16 @@ func c10Scenarios(tier string) []Scenario {
 				Calls: []CallSpec{{ID: 0, Match: MatchNil, CancelAt: -1, After: -1}, {ID: 1, Match: MatchNil, CancelAt: -1, After: -1}, {ID: 2, Match: MatchNil, CancelAt: -1, After: -1}, {ID: 0, Match: MatchNil, CancelAt: -1, After: -1}},
 				Dgs:   []DgSpec{{At: 1, Kind: DgGood, ID: 0}, {At: 1, Kind: DgGood, ID: 1}, {At: 1, Kind: DgGood, ID: 2}}}, "raw-conn")
 		}
+		// (4f) two clients in one process, each on its own connection, with calls that carry the same transaction id:
+		// every client routes within its own connection only
+		for _, seq := range dgSequences(alpha2[:2], 1) {
+			d := append([]DgSpec{}, seq...)
+			for i := range d {
+				d[i].At = 1
+			}
+			add(&ClientScenario{V6: v6, Twin: true, T: T, Tries: 1, BufCap: 1, CloseAt: -1, Bound: 1,
+				Calls: []CallSpec{{ID: 0, Match: MatchNil, CancelAt: -1, After: -1}}, Dgs: d}, "two-clients")
+		}
 		// (5) many callers: 4 (quick) / 5 (thorough) concurrent callers, two of them colliding
 		{
 			nc := 4
